@@ -34,6 +34,9 @@ TNext == /\ l <= Len(TraceLog) /\ l' = l + 1 /\ UNCHANGED vars
                 bad == CASE e.e = "Layout" -> IF e.rc = 0 THEN LayoutBad(e) ELSE {}
                          [] e.e = "Commute" -> IF AllEqual(e.ids) THEN {} ELSE {"CommuteConvert"}
                          [] e.e = "Subst" -> IF AllEqual(e.ids) /\ e.termsok THEN {} ELSE {"CommuteOption"}
+                         (* newlines=auto with a one-line file inserted by cmt_insert_file_header / _footer whose terminator differs: *)
+                         (* the source's lines are the majority, every line of the output ends the way they do                        *)
+                         [] e.e = "Insert" -> IF e.rc # 0 \/ ToSet(e.terms) \subseteq {e.src} THEN {} ELSE {"AutoPicksMostFrequent"}
                 drift == IF e.e = "Layout" /\ e.rc = 0 THEN LayoutDrift(e) ELSE {}
                 why == IF e.e = "Layout" /\ "AutoPicksMostFrequent" \in bad THEN Why(e) ELSE {}
             IN (bad # {} \/ drift # {}) => PrintT("@@" \o ToJson([l |-> l, id |-> e.id, bad |-> bad, drift |-> drift, why |-> why]))
